@@ -14,6 +14,7 @@ The result for one entry function is a list of Path objects (event trace,
 exit kind, returned abstract value, final lock typestate); the rule modules
 evaluate their obligations on those.
 """
+import json
 from facts import ty_subst, ty_walk as _walk
 
 LOOP_LIMIT = 3
@@ -410,7 +411,8 @@ class Interp:
             if t["k"] == "tuple" and not t["elems"]:
                 return UNIT
             if t["k"] == "fndef":
-                return Const(("fn", t["def"]))
+                return Const(("fn", t["def"], t.get("id"), t.get("ctor_adt"), t.get("ctor_variant"), t.get("trait"),
+                              json.dumps([a for a in t.get("args", []) if a.get("k") not in ("region", "const")], sort_keys=True)))
             return self.fresh_op(st, "k", t, tag=("constant", s))
         raise Undecided("operand %r" % k)
 
@@ -1018,12 +1020,66 @@ class Interp:
                 elif kind == "cut":
                     outs.append(("cut", note, s2))
             return outs
+        if inner[0] == "const" and isinstance(inner[1], tuple) and inner[1] and inner[1][0] == "fn":
+            # a function item used as a value (`map_err(Error::Variant)`, `map(Self::new)`, `for_each(drop)`)
+            _, d, did, cadt, cvar, tr, targs_s = (inner[1] + (None,) * 7)[:7]
+            if cadt is not None:
+                return [("ret", Agg("adt", cadt, cvar or 0, list(cargs)), st)]
+            targs = json.loads(targs_s) if targs_s else []
+            lfn = self.F.fn_by_id.get(did)
+            if tr and (lfn is None or "mir" not in lfn):
+                lfn = self.resolve_local_impl(tr, d.split("::")[-1], targs)
+            ce = {"k": "fndef", "def": d, "id": did, "name": d.split("::")[-1], "trait": tr, "args": targs}
+            if lfn is not None and "mir" in lfn:
+                ce = dict(ce, resolved={"def": lfn["path"], "id": lfn["id"], "kind": "Item"})
+            return self.call(st, fn, ce, list(cargs), line, depth, dest_ty, may_unwind)
         # user-supplied callable
         fid_s = inner[1] if inner[0] == "op" else repr(inner)
         ev = self.emit(st, {"k": "USER", "f": fid_s, "args": list(cargs), "locks": dict(st.locks)}, fn, line)
         r = self.fresh_op(st, "user", dest_ty, tag=("user", ev["i"]))
         ev["result"] = r[1]
         return self.outcomes(st, r, may_unwind, "user closure", fn, line)
+
+    def resolve_local_impl(self, trait, name, targs):
+        """The crate-local impl method selected by a trait-method path whose Self type (and trait arguments) name ADTs."""
+        if not targs:
+            return None
+        selft = targs[0]
+        cands = []
+        for imp in self.F.impls_of(trait):
+            it = imp["self_ty"]
+            if not (it["k"] == "adt" and selft.get("k") == "adt" and it["path"] == selft["path"]):
+                continue
+            ok = True
+            for a, b in zip(imp.get("trait_args", []), targs[1:]):
+                if a["k"] == "adt" and (b.get("k") != "adt" or a["path"] != b["path"]):
+                    ok = False
+            if ok:
+                cands.append(imp)
+        if len(cands) != 1:
+            return None
+        for item in cands[0]["items"]:
+            if item["name"] == name:
+                f = self.F.fn_by_id.get(item["id"])
+                if f is not None and "mir" in f:
+                    return f
+        return None
+
+    def variants_of(self, st, v, n=2):
+        """[(variant index, payload value or None, state)] of an Option/Result-like value."""
+        if v[0] == "agg":
+            return [(v[3], v[4][0] if v[4] else None, st)]
+        if v[0] == "op":
+            known = st.facts.get(v[1])
+            if isinstance(known, tuple) and known and known[0] == "variant" and isinstance(known[1], int):
+                return [(known[1], self.project(st, v, 0, None), st)]
+            out = []
+            for k in range(n):
+                s2 = st.fork()
+                s2.facts[v[1]] = ("variant", k)
+                out.append((k, self.project(s2, v, 0, None), s2))
+            return out
+        raise Undecided("variant of %r" % (v,))
 
     def untuple(self, st, tup, n=None):
         if tup[0] == "agg":
@@ -1058,6 +1114,10 @@ class Interp:
             lfn = None
         if r and r["kind"] not in ("Item", "ClosureOnceShim"):
             lfn = None if r["kind"] == "Virtual" else lfn
+        if lfn is None and r is None and trait and not trait.startswith(("lockable::", "lock_api::")) and trait not in FN_TRAITS_:
+            cand = self.resolve_local_impl(trait, name, [a for a in ce.get("args", []) if isinstance(a, dict) and a.get("k") not in ("region", "const")])
+            if cand is not None:
+                lfn, tdef, tid = cand, cand["path"], cand["id"]
 
         if trait == "lockable::RawLock" and name in HL_OPS:
             if self.inline_hl and lfn is not None:
@@ -1208,6 +1268,9 @@ class Interp:
         return self._rawlock_adts
 
 
+FN_TRAITS_ = ("std::ops::FnOnce", "std::ops::FnMut", "std::ops::Fn")
+
+
 # ---- models of std functions ------------------------------------------------
 def _opt(variant, fields):
     return Agg("adt", "std::option::Option", variant, fields)
@@ -1261,6 +1324,7 @@ def m_catch_unwind(I, st, fn, ce, args, line, depth, dest_ty, may_unwind):
     out = []
     for kind, val, s2 in I.call_value(st, args[0], [], fn, line, depth, None, True):
         if kind == "ret":
+            I.emit(s2, {"k": "CATCH_END"}, fn, line)
             out.append(("ret", _res(0, [val]), s2))
         elif kind == "unwind":
             I.emit(s2, {"k": "CAUGHT"}, fn, line)
@@ -1280,6 +1344,87 @@ def m_unwrap_or_else(I, st, fn, ce, args, line, depth, dest_ty, may_unwind):
             out.append(("ret" if kind == "ok" else "unwind", res[4][0] if kind == "ok" else None, s2))
         return out
     return I.call_value(st, g, [res[4][0]], fn, line, depth, dest_ty, may_unwind)
+
+
+def _drop_then(I, st, val, fn, line, depth, result):
+    out = []
+    for kind, s2 in I.drop_value(st, val, None, fn, line, depth):
+        out.append(("ret" if kind == "ok" else "unwind", result if kind == "ok" else None, s2))
+    return out
+
+
+def _wrap_calls(outs, wrap):
+    return [(k, wrap(v) if k == "ret" else v, s2) for k, v, s2 in outs]
+
+
+def m_map_variant(which, opt_in, res_out=None):
+    """Option::map / Result::map / Result::map_err: apply the callable to the payload of variant `which`."""
+    def f(I, st, fn, ce, args, line, depth, dest_ty, may_unwind):
+        out = []
+        for k, payload, s2 in I.variants_of(st, args[0]):
+            mk = (lambda k_: (lambda v: _opt(k_, [v] if v is not None else []))) if opt_in else (lambda k_: (lambda v: _res(k_, [v])))
+            if k == which:
+                out += _wrap_calls(I.call_value(s2, args[1], [payload], fn, line, depth, None, may_unwind), mk(k))
+            else:
+                keep = _opt(k, [payload] if (payload is not None and not (opt_in and k == 0)) else []) if opt_in else _res(k, [payload])
+                out += _drop_then(I, s2, args[1], fn, line, depth, keep)
+        return out
+    return f
+
+
+def m_ok_or(lazy):
+    def f(I, st, fn, ce, args, line, depth, dest_ty, may_unwind):
+        out = []
+        for k, payload, s2 in I.variants_of(st, args[0]):
+            if k == 1:      # Some(x) -> Ok(x); the unused error value / closure is dropped here
+                out += _drop_then(I, s2, args[1], fn, line, depth, _res(0, [payload]))
+            elif lazy:
+                out += _wrap_calls(I.call_value(s2, args[1], [], fn, line, depth, None, may_unwind), lambda v: _res(1, [v]))
+            else:
+                out.append(("ret", _res(1, [args[1]]), s2))
+        return out
+    return f
+
+
+def m_res_to_opt(keep):
+    """Result::ok (keep=0) / Result::err (keep=1): the other payload is dropped."""
+    def f(I, st, fn, ce, args, line, depth, dest_ty, may_unwind):
+        out = []
+        for k, payload, s2 in I.variants_of(st, args[0]):
+            if k == keep:
+                out.append(("ret", _opt(1, [payload]), s2))
+            else:
+                out += _drop_then(I, s2, payload, fn, line, depth, _opt(0, []))
+        return out
+    return f
+
+
+def m_is_variant(which):
+    def f(I, st, fn, ce, args, line, depth, dest_ty, may_unwind):
+        v = args[0]
+        if v[0] == "ref":
+            v = I.load(st, v[1])
+        return [("ret", Const(k == which), s2) for k, _, s2 in I.variants_of(st, v)]
+    return f
+
+
+def m_unwrap(ok_variant):
+    def f(I, st, fn, ce, args, line, depth, dest_ty, may_unwind):
+        out = []
+        for k, payload, s2 in I.variants_of(st, args[0]):
+            if k == ok_variant:
+                out.append(("ret", payload, s2))
+            else:
+                I.emit(s2, {"k": "PANIC", "what": ce["def"]}, fn, line)
+                out.append(("unwind", None, s2))
+        return out
+    return f
+
+
+def m_manually_drop_new(I, st, fn, ce, args, line, depth, dest_ty, may_unwind):
+    # the wrapped value will never be dropped implicitly: for ownership purposes this is mem::forget that keeps the value readable
+    I.emit(st, {"k": "FORGET", "val": args[0], "via": "ManuallyDrop::new"}, fn, line)
+    return [("ret", Agg("adt", "std::mem::ManuallyDrop", 0, [args[0]]), st)]
 
 
 def m_resume_unwind(I, st, fn, ce, args, line, depth, dest_ty, may_unwind):
@@ -1487,4 +1632,27 @@ MODELS = {
     "<I as std::iter::IntoIterator>::into_iter": m_identity,
     "core::panicking::panic_fmt": m_panic,
     "core::panicking::panic": m_panic,
+    "std::cell::UnsafeCell::<T>::raw_get": m_cell_get,
+    "std::ptr::from_ref": m_identity,
+    "std::ptr::from_mut": m_identity,
+    "std::ptr::mut_ptr::<impl *mut T>::cast": m_identity,
+    "std::ptr::NonNull::<T>::as_ptr": m_identity,
+    "std::option::Option::<T>::map": m_map_variant(1, True),
+    "std::result::Result::<T, E>::map": m_map_variant(0, False),
+    "std::result::Result::<T, E>::map_err": m_map_variant(1, False),
+    "std::option::Option::<T>::ok_or": m_ok_or(False),
+    "std::option::Option::<T>::ok_or_else": m_ok_or(True),
+    "std::result::Result::<T, E>::ok": m_res_to_opt(0),
+    "std::result::Result::<T, E>::err": m_res_to_opt(1),
+    "std::option::Option::<T>::is_some": m_is_variant(1),
+    "std::option::Option::<T>::is_none": m_is_variant(0),
+    "std::result::Result::<T, E>::is_ok": m_is_variant(0),
+    "std::result::Result::<T, E>::is_err": m_is_variant(1),
+    "std::option::Option::<T>::unwrap": m_unwrap(1),
+    "std::option::Option::<T>::expect": m_unwrap(1),
+    "std::result::Result::<T, E>::unwrap": m_unwrap(0),
+    "std::result::Result::<T, E>::expect": m_unwrap(0),
+    "std::mem::ManuallyDrop::<T>::new": m_manually_drop_new,
+    "<std::mem::ManuallyDrop<T> as std::ops::Deref>::deref": m_deref_field0,
+    "<std::mem::ManuallyDrop<T> as std::ops::DerefMut>::deref_mut": m_deref_field0,
 }
